@@ -11,6 +11,7 @@ correct inverse CDF / mean": that `std::uniform_real_distribution`, `std::poisso
 `std::mt19937` have their specified distributions is TRUSTED (not provable about C++ library code here).
 -/
 import Strengths.Proofs.TauLeap
+import Strengths.Proofs.TauLeapClosed
 import Strengths.Proofs.WaitExp
 import Strengths.Model.CodeSnapshot
 import Strengths.Gen.Stoch
@@ -132,6 +133,34 @@ theorem select_spec (e : EngIn) (x : State) (hnn : PropsNonneg e x) {r : Rat} (h
       selectEvent e x r (List.range e.topo.nCells) 0 = some ((channels e (List.range e.topo.nCells))[k])) :=
   ⟨selectEvent_spec e x hnn h0 h1, fun k hk hlo hhi => selectEvent_interval e x hnn h0 k hk hlo hhi⟩
 
+/-- `gillespie_rates_sum`: the selection intervals `[Σ_{j<k} a_j, Σ_{j≤k} a_j)` are consecutive, start at 0, end at
+`a0`, and their lengths (the channel propensities) add up to `a0`; every `r ∈ [0, a0)` lies in exactly one of them —
+they partition `[0, a0)` -/
+theorem gillespie_rates_sum (e : EngIn) (x : State) (hnn : PropsNonneg e x) :
+    let ws := (channels e (List.range e.topo.nCells)).map (propOf e x)
+    prefixSum ws 0 = 0 ∧ prefixSum ws ws.length = a0 e x ∧
+    ∑ k ∈ range ws.length, (prefixSum ws (k + 1) - prefixSum ws k) = a0 e x ∧
+    (∀ k, k < ws.length → prefixSum ws (k + 1) - prefixSum ws k = ws[k]!) ∧
+    (∀ r, 0 ≤ r → r < a0 e x → ∃ k, (k < ws.length ∧ prefixSum ws k ≤ r ∧ r < prefixSum ws (k + 1)) ∧
+      ∀ k', (k' < ws.length ∧ prefixSum ws k' ≤ r ∧ r < prefixSum ws (k' + 1)) → k' = k) := by
+  intro ws
+  have hw : ∀ w ∈ ws, 0 ≤ w := by
+    intro w hw; simp only [ws, List.mem_map] at hw; obtain ⟨c, _, rfl⟩ := hw; exact hnn c
+  have hsum : ws.sum = a0 e x := (a0_eq e x).symm
+  refine ⟨prefixSum_zero ws, by rw [prefixSum_length, hsum], ?_, ?_, ?_⟩
+  · rw [Finset.sum_range_sub (fun k => prefixSum ws k), prefixSum_length, prefixSum_zero, hsum, sub_zero]
+  · intro k hk
+    rw [prefixSum_succ_of_lt ws k hk, getElem!_pos ws k hk]; ring
+  · intro r h0 h1
+    have hsome := scanIdx_isSome (ws := ws) (r := r) (cum := 0) h0 (by rw [hsum]; simpa using h1)
+    obtain ⟨k, hk⟩ := Option.isSome_iff_exists.1 hsome
+    have hspec := (scanIdx_eq_some_iff hw h0 k).1 hk
+    refine ⟨k, ⟨hspec.1, by simpa using hspec.2.1, by simpa using hspec.2.2⟩, ?_⟩
+    intro k' ⟨h1', h2', h3'⟩
+    have hk' := scanIdx_of_interval hw h1' (by simpa using h2') (by simpa using h3') (cum := 0)
+    rw [hk] at hk'
+    exact (Option.some.inj hk').symm
+
 /-- length of the interval of channel `k` = its propensity -/
 theorem select_interval_length (ws : List Rat) (k : Nat) (hk : k < ws.length) :
     prefixSum ws (k + 1) - prefixSum ws k = ws[k] := by
@@ -252,5 +281,35 @@ theorem tauleap_means (e : EngIn) (dt : Rat) (x : State) :
       (List.zip (tauLeapMeans e dt x) cs).filterMap (fun p => if p.1 ≤ 0 then none else some p.2) = ds ∧
       ∀ p ∈ List.zip (tauLeapMeans e dt x) cs, p.1 ≤ 0 → p.2 = 0) :=
   ⟨tauLeapMeans_eq e dt x, tauChannels_sub e, fun ds cs h => poissonCounts_spec _ ds cs h⟩
+
+/-- the tau-leap engine and the exact engine have the SAME channels with the SAME propensities: the tau-leap call
+list is the Gillespie scan list, in the same order, minus the slots without a neighbour — whose propensity is 0 in
+the exact engine; hence both see the same total propensity `a0` -/
+theorem tauleap_channels_are_gillespie_channels (e : EngIn) (x : State) (dt : Rat) :
+    tauChannels e = (channels e (List.range e.topo.nCells)).filter (hasTarget e) ∧
+    (∀ c ∈ channels e (List.range e.topo.nCells), hasTarget e c = false → propOf e x c = 0) ∧
+    a0 e x = ((tauChannels e).map (propOf e x)).sum ∧
+    tauLeapMeans e dt x = (tauChannels e).map (fun c => propOf e x c * dt) :=
+  ⟨tauChannels_eq_filter e, fun c _ h => propOf_zero_of_not_hasTarget e x c h, a0_eq_sum_tauChannels e x,
+   tauLeapMeans_eq e dt x⟩
+
+/-- **tau-leap closed form**: `Apply_nevt` — cells in order, each updating the state in place, reactions then
+slots — leaves in every entry `x + [not chemostated]·(Σ_r sto·nr − Σ_n nd(leaving) + Σ_{(j,m): nbr j m = i} nd(arriving))`:
+the order-independent sum of count × chemostat-masked effect, for EVERY count vector (no sign or wall condition needed) -/
+theorem tauleap_closed_form (e : EngIn) (c : Counts) (x : State) {i s : Nat}
+    (hi : i < e.topo.nCells) (hs : s < e.net.nSpecies) :
+    (tauLeapApply e c x) i s = x i s + (if e.chem i s = true then 0 else
+      (∑ r ∈ range e.net.nReact, (e.net.sto s r : Rat) * (c.nr i r : Rat)
+       - ∑ n ∈ range (e.topo.nSlots i), (c.nd i s n : Rat)
+       + ∑ j ∈ range e.topo.nCells, ∑ m ∈ range (e.topo.nSlots j),
+           (if e.topo.nbr j m = some i then (c.nd j s m : Rat) else 0))) :=
+  tauLeapApply_closed_form e c x hi hs
+
+/-- C03-style corollary: entries flagged as chemostated are fixed by a tau-leap step, whatever was drawn; so are
+entries beyond the species range -/
+theorem tauleap_flagged_entries_fixed (e : EngIn) (c : Counts) (x : State) (i s : Nat) :
+    (i < e.topo.nCells → s < e.net.nSpecies → e.chem i s = true → (tauLeapApply e c x) i s = x i s) ∧
+    (e.net.nSpecies ≤ s → (tauLeapApply e c x) i s = x i s) :=
+  ⟨fun hi hs hc => tauLeapApply_chem_fixed e c x hi hs hc, fun hs => tauLeapApply_outside_species e c x i hs⟩
 
 end Strengths.C07
